@@ -178,8 +178,9 @@ class Events(Monitor):
                     tol2 = 4 * eps * max(1.0, abs(_f(l2)), abs(_f(h2)))
                     found = any((e.event is ev) and (l2 - tol2 <= e.t <= h2 + tol2) for e in events)
                     if not found:
+                        gmin_rel = min(abs(g1), abs(g2)) / (abs(float(ev.scale)) * (abs(float(ev.c)) + 1.0))
                         world.violate("C08", "C08.crossing_reported", "event %d (%s, scale %g, direction %d) changes sign over the accepted step [%r,%r] (g: %.3e -> %.3e) but no event is reported there"
-                                      % (ev.idx, ev.kind, ev.scale, ev.direction, _f(t1), _f(t2), g1, g2))
+                                      % (ev.idx, ev.kind, ev.scale, ev.direction, _f(t1), _f(t2), g1, g2), facts={"gmin_rel": gmin_rel})
         if len(new) >= 2:
             world.probe("multiple_events_in_one_step")
         self.steps.append((a_row, b_row, new))
@@ -330,7 +331,10 @@ class Events(Monitor):
                                 first = (tr, tev.idx)
                     if first is not None:
                         slope = 1e-300
-                        tb_ = 1e-3 + 100 * (E + interp)
+                        # how far the located stop may be from the exact earliest root: slope-dependent events are located on
+                        # the derivative of the interpolant (one order less accurate)
+                        has_d = any(x.kind == "dstate" for x in evs if x.is_terminal)
+                        tb_ = (0.05 + 1000 * (E + interp)) if has_d else (1e-3 + 100 * (E + interp))
                         if (_f(te) - first[0]) * self.dir > tb_:
                             world.violate("C09", "C09.only_earliest_terminal", "stopped at t=%r but terminal event %d has an earlier true root at %r" % (_f(te), first[1], first[0]))
             else:
